@@ -249,10 +249,11 @@ enum Line {
     Malformed,
 }
 
-/// `lenient_keys`: field names may hold any printable ASCII character except the colon. The
-/// protocol does not restrict field names; the library's alphabet (letters, `_`, `-`) is what it
+/// `lenient_keys`: field names may hold any printable character (ASCII or not) except the colon.
+/// The protocol does not restrict field names; the library's alphabet (letters, `_`, `-`) is what it
 /// accepts today, so a line whose name lies outside it is *unspecified*, not malformed: rejecting it
-/// and accepting it verbatim are both faithful.
+/// and accepting it verbatim are both faithful. (Invalid UTF-8, control characters, blanks and an
+/// empty name stay malformed.)
 fn classify(l: &[u8], lenient_keys: bool) -> Line {
     if l == b"OK" {
         return Line::Ok;
@@ -272,7 +273,16 @@ fn classify(l: &[u8], lenient_keys: bool) -> Line {
         }
     }
     // <key>: <value>
-    let klen = l.iter().take_while(|&&b| is_key_byte(b) || lenient_keys && b.is_ascii_graphic() && b != b':').count();
+    let klen = if lenient_keys {
+        // longest prefix without a colon that is valid UTF-8 made of printable, non-blank characters
+        let upto = l.iter().position(|&b| b == b':').unwrap_or(l.len());
+        match std::str::from_utf8(&l[..upto]) {
+            Ok(k) if !k.is_empty() && k.chars().all(|c| !c.is_control() && !c.is_whitespace()) => upto,
+            _ => l.iter().take_while(|&&b| is_key_byte(b)).count(),
+        }
+    } else {
+        l.iter().take_while(|&&b| is_key_byte(b)).count()
+    };
     if klen == 0 {
         return Line::Malformed;
     }
@@ -326,11 +336,30 @@ fn classify_ack(r: &[u8]) -> Option<AError> {
 
 /// Decode a whole server byte stream (after the greeting) by the reference grammar.
 pub fn ref_decode(stream: &[u8]) -> RefDecoded {
-    ref_decode_with(stream, false)
+    ref_decode_with(stream, 0).0
 }
 
-/// see `classify` for `lenient_keys`
-pub fn ref_decode_with(stream: &[u8], lenient_keys: bool) -> RefDecoded {
+/// `accept_unspecified`: how many lines with a field name outside the library's present alphabet
+/// (see `classify`) are accepted verbatim before the next one is treated as malformed (0 = the strict
+/// reading). Also returns how many such lines were met.
+pub fn ref_decode_with(stream: &[u8], accept_unspecified: usize) -> (RefDecoded, usize) {
+    let mut unspecified_met = 0usize;
+    let d = ref_decode_inner(stream, &mut |line: &[u8]| {
+        let strict_ok = !matches!(classify(line, false), Line::Malformed);
+        if strict_ok {
+            return false;
+        }
+        if matches!(classify(line, true), Line::Malformed) {
+            return false;
+        }
+        // unspecified line
+        unspecified_met += 1;
+        unspecified_met <= accept_unspecified
+    });
+    (d, unspecified_met)
+}
+
+fn ref_decode_inner(stream: &[u8], lenient_for: &mut dyn FnMut(&[u8]) -> bool) -> RefDecoded {
     let mut out = RefDecoded { responses: vec![], boundaries: vec![], end: RefEnd::Clean, malformed_at: None };
     let mut pos = 0usize;
     // builder
@@ -351,6 +380,7 @@ pub fn ref_decode_with(stream: &[u8], lenient_keys: bool) -> RefDecoded {
         let line = &stream[pos..pos + rel];
         let line_start = pos;
         pos += rel + 1;
+        let lenient_keys = lenient_for(line);
         match classify(line, lenient_keys) {
             Line::Malformed => {
                 out.end = RefEnd::Malformed;
